@@ -15,7 +15,8 @@ LEVEL = ("Static structural conditions of the microcanonical sampler: every writ
          "successful step decrements the remaining count once (R4). The ESH closed form and the kinetic-energy change as numbers are not decided."
          " Added: the stack of pending step-size levels is per draw (R4); switch_draw is computed from trajectory_switch_fraction and num_tune only (R5)."
          " Added (round 5): a retry level is pushed only while len < max_halvings (R4 retry-limit); the ESH entry points take the step size as their only scalar and the closed form is unclamped (R1)."
-         " Added (round 6): the MCLMC presets hand their settings to the chain as set (R7, rules/convert.py); the retry factor scales both half-steps and the position step alike (R8 = C02-R2).")
+         " Added (round 6): the MCLMC presets hand their settings to the chain as set (R7, rules/convert.py); the retry factor scales both half-steps and the position step alike (R8 = C02-R2)."
+         " Added (round 7): a plain-data field of MclmcChain that mclmc_kernel reads is never stored after construction - per-draw quantities are read from the Hamiltonian in the call, not from a copy kept in the chain (R9).")
 EXPLANATION = ("Effect / dominance analysis on the MIR of the Hamiltonian methods and of MclmcChain::{draw, mclmc_kernel}; natural-loop structure of the retry "
                "bookkeeping; symbolic evaluation (rules/kernel.py) of the final loops of CpuMath::esh_momentum_update.")
 TRUSTED = ["rustc nightly MIR/HIR", "nutsfacts extractor", "rules/c18.py", "Math::array_normalize divides by the Euclidean norm (decided for CpuMath by R1's symbolic check)"]
@@ -665,12 +666,83 @@ def r5(F, R):
 
 
 
+
+PLAIN_TYPES = ("u64", "f64", "bool", "usize", "i64", "u32")
+KERNEL_COUNTERS = {"draw_count": "the chain's draw counter, advanced once per draw (its writers are decided by C06-R6 / C03-R3)"}
+
+
+def r9(F, R):
+    R.rule("C18-R9", "what mclmc_kernel takes from the chain is either configuration or read where it lives: a plain-data field of MclmcChain (number, flag, Option of one) that "
+                     "the kernel reads is never stored after construction - the step size and the decoherence length, which adaptation and set_position change, are read "
+                     "from the Hamiltonian inside the call. A per-draw quantity cached in the chain (a step count computed after adapt) is stale on the histories its writer "
+                     "does not see (a second set_position), and the draw then takes a number of steps that does not belong to the step size in force. Listed counters: %s"
+           % ", ".join(sorted(KERNEL_COUNTERS)))
+    b = kernel_body(F)
+    adts = [k for k in F.adts if k.endswith("mclmc::MclmcChain")]
+    if b is None or len(adts) != 1:
+        R.missing("C18-R9", "MclmcChain / mclmc_kernel")
+        return
+    plain = {f["name"] for f in F.adts[adts[0]]["variants"][0]["fields"]
+             if f["ty"] in PLAIN_TYPES or any(f["ty"] == "std::option::Option<%s>" % t for t in PLAIN_TYPES)}
+
+    def chain_fields(pl):
+        return [e["n"] for e in pl["p"] if isinstance(e, dict) and "f" in e and path_ends(e.get("of") or "", "mclmc::MclmcChain")]
+
+    read = set()
+    for c in [b] + K.all_closures_of(F, b.path):
+        sl = c.slice([], control=False)
+        for blk in c.blocks:
+            if blk["cleanup"]:
+                continue
+            for st in blk["stmts"]:
+                if st["k"] != "assign":
+                    continue
+                rv = st["rv"]
+                ops = [rv[k_] for k_ in ("op", "l", "r") if isinstance(rv.get(k_), dict)] + [o for o in (rv.get("ops") or []) if isinstance(o, dict)]
+                for o in ops:
+                    if o["k"] in ("copy", "move"):
+                        read |= set(chain_fields(o["pl"])[:1])
+                if rv["k"] in ("ref", "rawptr") and isinstance(rv.get("pl"), dict):
+                    read |= set(chain_fields(rv["pl"])[:1])
+            t = blk["term"]
+            for o in (t.get("args") or []) + ([t["discr"]] if t.get("k") == "switch" and isinstance(t.get("discr"), dict) else []):
+                if o["k"] in ("copy", "move"):
+                    read |= set(chain_fields(o["pl"])[:1])
+        for u in sl.get("upvars", ()):
+            read.add(u)
+    watched = (read & plain) - set(KERNEL_COUNTERS)
+    if len(watched) < 3:
+        R.missing("C18-R9", "plain configuration fields of MclmcChain read by mclmc_kernel (found %s, floor 3)" % sorted(watched))
+    writers = {}
+    for x in F.bodies.values():
+        if not x.mir or "::tests::" in x.path:
+            continue
+        for blk in x.blocks:
+            if blk["cleanup"]:
+                continue
+            for st in blk["stmts"]:
+                if st["k"] == "assign":
+                    fs = chain_fields(st["pl"])
+                    if fs and fs[0] in watched:
+                        writers.setdefault(fs[0], []).append((x, st))
+    for f in sorted(watched):
+        key = "%s:%s" % (adts[0], f)
+        if f in writers:
+            x, st = writers[f][0]
+            R.bad("C18-R9", key, "%s @%s" % (x.path, loc(st["span"])), "MclmcChain.%s is read by mclmc_kernel and stored in %s: a value kept in the chain between draws is stale "
+                  "whenever the quantities it was computed from change on a path that does not pass this store (set_position re-initialises the step size)"
+                  % (f, ", ".join(sorted({w[0].path.split("::{closure")[0].split("::")[-1] for w in writers[f]}))))
+        else:
+            R.ok("C18-R9", key, "%s @%s" % (b.path, b.loc()), "read by the kernel, never stored after construction")
+
+
 def run(F, R, config=None):
     r1(F, R)
     r2(F, R)
     r3(F, R)
     r4(F, R)
     r5(F, R)
+    r9(F, R)
     # a leapfrog result with a NaN energy error (NaN momentum after the ESH update) must not become the next state (C05-R2 analysis of the energy gate)
     from . import c05
     K.borrow_rule(R, lambda sub: c05.r2(F, sub), "C18-R6", "the leapfrog hands out LeapfrogResult::Ok only under an energy gate that a NaN or infinite energy error cannot pass "
